@@ -271,3 +271,59 @@ def _ts_on_attr_text(ex, node, attr, v):
 
 
 TSNode.on_attr = _ts_on_attr_text
+
+
+# (C01/C16) native generator for the CPython cross-check (pyvc/selftest.py): a random node of a random, REAL parse tree
+def _py_random_source(rng, depth=0, indent="    "):
+    """A random block of statements (nesting constructs, defs, classes with decorated methods) as source text."""
+    pad = indent * (depth + 1)
+    out = []
+    for _ in range(rng.choice([1, 1, 2, 3])):
+        k = rng.randrange(12) if depth < 4 else 0
+        if k <= 1:
+            out.append(pad + rng.choice(["pass", "x = 1", "return x", "y = x + 2", "# comment\n" + pad + "z = 3", "\n" + pad + "w = 4"]))
+        elif k == 2:
+            out.append(pad + "if x:\n" + _py_random_source(rng, depth + 1))
+            for _ in range(rng.choice([0, 0, 1, 2])):
+                out.append(pad + "elif y:\n" + _py_random_source(rng, depth + 1))
+            if rng.random() < 0.4:
+                out.append(pad + "else:\n" + _py_random_source(rng, depth + 1))
+        elif k == 3:
+            out.append(pad + rng.choice(["for i in x:", "while x:", "async for i in x:"]) + "\n" + _py_random_source(rng, depth + 1))
+        elif k == 4:
+            out.append(pad + rng.choice(["with x as y:", "async with x as y:"]) + "\n" + _py_random_source(rng, depth + 1))
+        elif k == 5:
+            out.append(pad + "try:\n" + _py_random_source(rng, depth + 1) + "\n" + pad + "except E:\n"
+                       + _py_random_source(rng, depth + 1) + ("\n" + pad + "finally:\n" + _py_random_source(rng, depth + 1)
+                                                               if rng.random() < 0.4 else ""))
+        elif k == 6:
+            out.append(pad + "match x:\n" + pad + indent + "case 1:\n" + _py_random_source(rng, depth + 2)
+                       + "\n" + pad + indent + "case _:\n" + _py_random_source(rng, depth + 2))
+        elif k == 7:
+            deco = rng.choice(["", "", pad + "@property\n", pad + "@staticmethod\n"])
+            name = rng.choice(["run", "_helper", "__init__", "value", "do_it"])
+            out.append(deco + pad + rng.choice(["def ", "async def "]) + name + "(self, x):\n" + _py_random_source(rng, depth + 1))
+        elif k == 8:
+            out.append(pad + "class " + rng.choice(["Foo", "DataManager", "RequestHandler", "Bar"]) + ":\n"
+                       + _py_random_source(rng, depth + 1))
+        elif k == 9:
+            out.append(pad + "if x:\n" + pad + indent + "pass\n" + pad + "else:\n" + pad + indent + "if y:\n"
+                       + _py_random_source(rng, depth + 2))
+        else:
+            out.append(pad + "f(lambda a: a, [b for b in x if b])")
+    return "\n".join(out)
+
+
+def _py_native_gen(g):
+    src = "async def top(self, x):\n" if g.rng.random() < 0.2 else "def top(self, x):\n"
+    src += _py_random_source(g.rng)
+    try:
+        tree = _ast.parse(src)
+    except SyntaxError:
+        tree = _ast.parse("def top(x):\n    if x:\n        pass\n")
+    nodes = [n for n in _ast.walk(tree) if isinstance(n, (_ast.stmt, _ast.mod, _ast.match_case, _ast.ExceptHandler))]
+    heads = [n for n in nodes if isinstance(n, (_ast.FunctionDef, _ast.AsyncFunctionDef, _ast.ClassDef, _ast.Module))]
+    return g.rng.choice(heads if g.rng.random() < 0.5 else nodes)
+
+
+PyNode.native_gen = _py_native_gen
